@@ -146,7 +146,7 @@ def balanced(e):
 
 
 def wf_expr(e):
-    return balanced(e) and all(c not in "\\ '\"[]" for c in e) and first_not_in("&", e)
+    return e != "" and balanced(e) and all(c not in "\\ '\"[]" for c in e) and first_not_in("&", e)
 
 
 def wf_seg(prev_coll, x, f21=True):
